@@ -27,7 +27,7 @@ def run_c20(ctx):
         ctx.violation("C20|model|" + inv, {"tlc": mc["output"][-3000:]}, replay_src={"tlc_output": mc["output"][-6000:]})
     ndiff = sum(1 for l in mc["output"].splitlines() if l.startswith('"{'))
     cases, ncls = export_cases(ctx)
-    stride, kwf, nrand = (3, 1, 1500) if ctx.quick else (1, 40, 150000)
+    stride, kwf, nrand = (2, 3, 5000) if ctx.quick else (1, 40, 150000)
     trace = ctx.path("pairs.ndjson")
     C.run_bin(bindir, "asyncx", [abi, trace, cases, stride, kwf, nrand], env={"VERIF_SEED": ctx.seed}, timeout=3000)
     res = C.tlc_trace(ctx, "Trace_Async", trace, timeout=3000, xmx="8g")
